@@ -9,6 +9,7 @@ CONSTANTS
   Classes <- SimClasses
   Record = FALSE
   FixLvfoLabel = TRUE
+  Exhaustive = FALSE
 VIEW sview
 INVARIANTS InvContents DiskKeysUnique P5 P5persist
 CHECK_DEADLOCK FALSE
